@@ -2,6 +2,7 @@
 //! comparator / hasher / `ReconKey` (C15), all driven on the real implementation.
 
 mod c09;
+mod c09_comments;
 mod c15;
 mod gen;
 mod types;
@@ -23,6 +24,9 @@ fn main() {
         println!("text      : {t:?}");
         let r = util::parse_value(&t);
         println!("parse     : {r:?}");
+        println!("parse(#ok): {:?}", swimos_recon::parser::parse_recognize::<swimos_model::Value>(t.as_str(), true).map_err(|e| format!("{e}")));
+        println!("document  : {:?}", c09::read_document_with(t.as_bytes(), &[], false));
+        println!("doc(#ok)  : {:?}", c09::read_document_with(t.as_bytes(), &[], true));
         if let Ok(v) = &r {
             for p in 0..3 {
                 let printed = util::print_with(p, v);
